@@ -56,6 +56,12 @@ func (x *Exec) join(label string, ins []incoming) (*Node, *State) {
 		}
 		j := x.vc.freshConst(shortVar(k)+"_j", x.varSort(k))
 		st.vars[k] = Term{S: j, Sort: x.varSort(k)}
+		if strings.HasPrefix(k, "HA.") {
+			x.reseed(k, j)
+			for _, in := range ins {
+				x.linkHeaps(k, x.get(in.st, k).S, j)
+			}
+		}
 		for i, in := range ins {
 			extra[i] = append(extra[i], mkEq(j, x.get(in.st, k).S))
 		}
